@@ -1,10 +1,15 @@
 """C03 — queued work never stalls and idleness is reported only when truly idle."""
 from __future__ import annotations
 
-from ..engine import monitors, suite
+from ..engine import c03x, monitors, suite
 from ..runner import Env, Outcome
 
-THEOREMS = ["C03_work_conserving", "C03_idle_reducer_sound", "C03_refuted_timer", "C03_refuted_mailbox", "C03_refuted"]
+THEOREMS = ["C03_work_conserving", "C03_idle_reducer_sound", "C03_refuted_timer", "C03_refuted_mailbox", "C03_refuted",
+            # the runner level: every reachable state of every run, fresh or resumed from whatever state
+            "C03_work_conserving_runner", "C03_rewind_exact", "C03_in_progress_is_live", "C03_full_limit_live",
+            "C03_idle_check_exact", "C03_idle_runner_sound", "C03_idle_exceptions_exact", "C03_truly_idle_is_quiescent",
+            # the anchored source as found on this run (harness/gen/idle_shape.py -> WfModel/GenIdleShape.lean)
+            "C03_check_idle_is_source", "C03_refill_guard_is_source", "C03_source_shape"]
 LEAN_TARGETS = ["WfProps.C03"]
 EXPLANATION = (
     "Work conservation is proved for every tick history (queue non-empty => all num_workers slots busy, until a tick "
@@ -12,7 +17,21 @@ EXPLANATION = (
     "queues and in-progress tables are empty and the run is marked running); the full statement (no scheduled retry, "
     "no delivered-but-unprocessed event) is REFUTED on the faithful runner model by two decide-checked witnesses "
     "(C03_refuted_timer, C03_refuted_mailbox) which the check replays on the real engine: both reproduce and are "
-    "listed as known findings. Any other way of announcing idleness unsoundly, or a stalled queue, is a VIOLATION."
+    "listed as known findings. Any other way of announcing idleness unsoundly, or a stalled queue, is a VIOLATION. "
+    "On the runner LTS (every reachable state of every run, started fresh or resumed from ANY state, every schedule): work conservation "
+    "(C03_work_conserving_runner), the rewind in closed form (C03_rewind_exact: former in-progress rows reversed, then the queue; the first "
+    "min(num_workers, #pending) started in order, the rest queued in order), every in-progress row is backed by a live worker task or its own "
+    "result tick is being reduced or a StopEvent result is (C03_in_progress_is_live; with an empty buffer a step with queued events has exactly "
+    "num_workers live tasks: C03_full_limit_live), the deferred idle check (flag <=> one TickIdleCheck, last in the buffer, never in heap or "
+    "mailbox: C03_idle_check_exact), and the strongest true idle theorem (C03_idle_runner_sound: an announcement is made by the loop only, with "
+    "all queues / in-progress tables empty, NO live worker task, nothing queued by the announcing tick, no step result buffered, and for "
+    "WorkflowIdleEvent an EMPTY buffer), so that the run is not truly idle IFF a delayed retry sits in the timer heap or an addEvent in the "
+    "mailbox (C03_idle_exceptions_exact = exactly the two known findings), and with both empty nothing but the clock can change without external "
+    "input (C03_truly_idle_is_quiescent). The quiescence test, both refill-loop conditions, the guard around the step-result refill, has_space, "
+    "the TickIdleCheck / CommandScheduleIdleCheck branches, the buffer-drain loop, the rewind's shape and the server's idle marker "
+    "(WorkflowIdleEvent only; release needs idle_since + idle_timeout elapsed + active; a send to an active run withdraws the mark) are "
+    "re-extracted from the sources on every run and proved to be what the model does (C03_check_idle_is_source, C03_refill_guard_is_source, "
+    "C03_source_shape)."
 )
 ASSUMPTIONS = suite.ENGINE_ASSUMPTIONS + [
     "reading: a pending wait_for_event timeout is not counted as pending work (the statement lists queued, running and scheduled-retry work)",
@@ -55,7 +74,7 @@ def _resume_runs(env: Env, out: Outcome, n: int) -> None:
         out.count("resume:outcome:" + tr2.outcome[0])
         if pend:
             out.nontrivial(("resume", repr(spec), tuple(tr1.actions)))
-        for v in monitors.mon_c03(tr2):
+        for v in monitors.mon_c03(tr2) + c03x.mon_c03_runner(tr2):
             v.replay = {"resume": {"spec": spec, "seed": seed, "actions1": tr1.actions, "actions2": tr2.actions}}
             out.violations.append(v)
     suite.runner_corr(out, resumed, "engine-runner-resumed")
@@ -64,8 +83,11 @@ def _resume_runs(env: Env, out: Outcome, n: int) -> None:
 def run(env: Env) -> Outcome:
     out = Outcome()
     out.rule = ("direct (state,tick) pairs + live scripted workflows (retry delays, waiters, fan-out) under random gate schedules; runs snapshotted at a quiet point and resumed from JSON; "
-                "non-trivial = more than 2 ticks; distinct by (spec, schedule)")
+                "generated resumed states (as generated / in-progress folded into the queue as from_serialized does / backlog beyond the worker limit / fewer workers than "
+                "in-progress rows) rewound by the real rewind_in_progress and compared with the closed form of C03_rewind_exact (driver op rewindspec) and with the model's rewind; "
+                "non-trivial = more than 2 ticks (runs), at least 2 pending invocations on a step (rewinds); distinct by (spec, schedule) / state")
     suite.direct_corr(env, out, env.budget(3000, 60000))
-    suite.live_runs(env, out, env.budget(400, 8000), [monitors.mon_c03], extra_specs=suite.load_corpus("C03"))
+    suite.live_runs(env, out, env.budget(400, 8000), [monitors.mon_c03, c03x.mon_c03_runner], extra_specs=suite.load_corpus("C03"))
     _resume_runs(env, out, env.budget(150, 3000))
+    c03x.rewind_stream(env, out, env.budget(600, 12000))
     return out
